@@ -9,6 +9,7 @@ import (
 	"path/filepath"
 	"strconv"
 	"strings"
+	"sync"
 	"syscall"
 	"time"
 )
@@ -52,6 +53,7 @@ type Result struct {
 	Fired     map[string]int `json:"fired"`
 	SchedHash uint64         `json:"sched_hash"`
 	Note      string         `json:"note"`
+	NumCPU    int            `json:"num_cpu"`
 }
 
 // TraceOp is one operation of the child's trace.
@@ -113,7 +115,13 @@ func (r *Runner) Run(work string, iv *Inv, p *Plan) (*ChildOut, error) {
 	if err := os.WriteFile(pp, pb, 0o644); err != nil {
 		return nil, err
 	}
-	cmd := exec.Command(r.Bin, "-test.run", "^TestVerifSim$", "-test.count", "1", "-test.timeout", "120s")
+	argv := []string{r.Bin, "-test.run", "^TestVerifSim$", "-test.count", "1", "-test.timeout", "120s"}
+	if iv.CPUs > 0 {
+		if list := cpuList(iv.CPUs); list != "" {
+			argv = append([]string{"taskset", "-c", list}, argv...)
+		}
+	}
+	cmd := exec.Command(argv[0], argv[1:]...)
 	cmd.Dir = work
 	procs := r.Procs
 	if procs == 0 {
@@ -160,6 +168,53 @@ func (r *Runner) Run(work string, iv *Inv, p *Plan) (*ChildOut, error) {
 		return nil, fmt.Errorf("child infrastructure error: %s", out.TestOut)
 	}
 	return out, nil
+}
+
+var (
+	cpuOnce    sync.Once
+	cpuAllowed []int
+)
+
+// cpuList returns the first n CPUs this process may run on as a taskset list, "" when the
+// affinity cannot be narrowed (no taskset, fewer CPUs): the child then runs unconfined.
+func cpuList(n int) string {
+	cpuOnce.Do(func() {
+		out, err := exec.Command("taskset", "-pc", strconv.Itoa(os.Getpid())).Output()
+		if err != nil {
+			return
+		}
+		s := strings.TrimSpace(string(out))
+		if i := strings.LastIndex(s, ": "); i >= 0 {
+			s = s[i+2:]
+		}
+		for _, part := range strings.Split(s, ",") {
+			lo, hi, ok := strings.Cut(part, "-")
+			a, err1 := strconv.Atoi(lo)
+			b := a
+			var err2 error
+			if ok {
+				b, err2 = strconv.Atoi(hi)
+			}
+			if err1 != nil || err2 != nil {
+				cpuAllowed = nil
+				return
+			}
+			for c := a; c <= b; c++ {
+				cpuAllowed = append(cpuAllowed, c)
+			}
+		}
+	})
+	if n >= len(cpuAllowed) {
+		return ""
+	}
+	var sb strings.Builder
+	for i := 0; i < n; i++ {
+		if i > 0 {
+			sb.WriteByte(',')
+		}
+		sb.WriteString(strconv.Itoa(cpuAllowed[i]))
+	}
+	return sb.String()
 }
 
 func parseTrace(b []byte) []TraceOp {
